@@ -65,22 +65,55 @@ func loadReasm(r *Run, w *World) *reasm {
 		}
 		return constVal(c)
 	}
-	x.put, x.cleanUp, x.clear, x.remove = m("eventList", "Put"), m("eventList", "CleanUp"), m("eventList", "Clear"), m("eventList", "remove")
-	x.add, x.isExpired = m("event", "Add"), m("event", "IsExpired")
-	x.callback, x.pushMessage, x.push = m("Reassembler", "callback"), m("Reassembler", "PushMessage"), m("Reassembler", "Push")
-	x.maintain, x.closeFn = m("Reassembler", "Maintain"), m("Reassembler", "Close")
-	x.newReassembler, x.newEventList = fn("NewReassembler"), fn("newEventList")
-	x.less, x.sortFn, x.absFn = m("sequenceNumSlice", "Less"), m("sequenceNumSlice", "Sort"), fn("abs")
 	x.fSeqs, x.fEvents, x.fLastSeq = fv("eventList", "seqs"), fv("eventList", "events"), fv("eventList", "lastSeq")
-	x.fMaxSize, x.fTimeout, x.fMutex = fv("eventList", "maxSize"), fv("eventList", "timeout"), fv("eventList", "Mutex")
-	x.fMsgs, x.fComplete, x.fExpire = fv("event", "msgs"), fv("event", "complete"), fv("event", "expireTime")
-	x.fClosed, x.fList, x.fStream = fv("Reassembler", "closed"), fv("Reassembler", "list"), fv("Reassembler", "stream")
 	if n, err := w.Named("libaudit", "Stream"); err != nil {
 		r.Anchor(err)
 		x.ok = false
 	} else {
 		x.stream = n
 	}
+	x.put, x.cleanUp, x.clear = m("eventList", "Put"), m("eventList", "CleanUp"), m("eventList", "Clear")
+	// unexported helpers are found by name or, after a rename, by the role the rules give them
+	x.remove = roleFn(r, w, &x.ok, "libaudit", "eventList", "remove", "the only function that deletes from eventList.events", func(f *ssa.Function) bool {
+		found := false
+		instrsOf(f, func(in ssa.Instruction) {
+			if c, ok := in.(*ssa.Call); ok && calleeName(c) == "delete" {
+				if fvv, _ := loadedField(c.Call.Args[0]); fvv != nil && fvv == x.fEvents {
+					found = true
+				}
+			}
+		})
+		return found
+	})
+	x.add, x.isExpired = m("event", "Add"), m("event", "IsExpired")
+	x.callback = roleFn(r, w, &x.ok, "libaudit", "Reassembler", "callback", "the only function that invokes Stream.ReassemblyComplete", func(f *ssa.Function) bool {
+		found := false
+		instrsOf(f, func(in ssa.Instruction) {
+			if c, ok := in.(ssa.CallInstruction); ok && c.Common().IsInvoke() && c.Common().Method.Name() == "ReassemblyComplete" &&
+				x.stream != nil && types.Identical(c.Common().Value.Type(), x.stream) {
+				found = true
+			}
+		})
+		return found
+	})
+	x.pushMessage, x.push = m("Reassembler", "PushMessage"), m("Reassembler", "Push")
+	x.maintain, x.closeFn = m("Reassembler", "Maintain"), m("Reassembler", "Close")
+	x.newReassembler = fn("NewReassembler")
+	x.newEventList = roleFn(r, w, &x.ok, "libaudit", "", "newEventList", "the only function that allocates an eventList", func(f *ssa.Function) bool {
+		found := false
+		instrsOf(f, func(in ssa.Instruction) {
+			if al, ok := in.(*ssa.Alloc); ok {
+				if nt, isN := al.Type().(*types.Pointer).Elem().(*types.Named); isN && nt.Obj().Name() == "eventList" && nt.Obj().Pkg() == w.Pkgs["libaudit"].Types {
+					found = true
+				}
+			}
+		})
+		return found
+	})
+	x.less, x.sortFn, x.absFn = m("sequenceNumSlice", "Less"), m("sequenceNumSlice", "Sort"), fn("abs")
+	x.fMaxSize, x.fTimeout, x.fMutex = fv("eventList", "maxSize"), fv("eventList", "timeout"), fv("eventList", "Mutex")
+	x.fMsgs, x.fComplete, x.fExpire = fv("event", "msgs"), fv("event", "complete"), fv("event", "expireTime")
+	x.fClosed, x.fList, x.fStream = fv("Reassembler", "closed"), fv("Reassembler", "list"), fv("Reassembler", "stream")
 	x.eoe, x.proctitle = cv("AUDIT_EOE"), cv("AUDIT_PROCTITLE")
 	x.lastDaemon, x.anomLoginFailures = cv("AUDIT_LAST_DAEMON"), cv("AUDIT_ANOM_LOGIN_FAILURES")
 	if x.ok {
@@ -89,6 +122,36 @@ func loadReasm(r *Run, w *World) *reasm {
 			fnName(x.newEventList), fnName(x.less), fnName(x.sortFn), fnName(x.absFn))
 	}
 	return x
+}
+
+// roleFn resolves an unexported helper by name (method of typ, or package function when typ is
+// empty); when the name no longer exists it falls back to the unique function of the package
+// that plays the stated role, so a rename alone does not leave the rules without their anchor.
+func roleFn(r *Run, w *World, okFlag *bool, pkg, typ, name, roleDesc string, role func(*ssa.Function) bool) *ssa.Function {
+	var f *ssa.Function
+	var err error
+	if typ != "" {
+		f, err = w.Method(pkg, typ, name)
+	} else {
+		f, err = w.Func(pkg, name)
+	}
+	if err == nil {
+		return f
+	}
+	var cands []*ssa.Function
+	for _, g := range w.PkgFuncs(pkg) {
+		if g.Parent() == nil && g.Synthetic == "" && role(g) {
+			cands = append(cands, g)
+		}
+	}
+	if len(cands) == 1 {
+		anchored[cands[0]] = true
+		r.Info(fmt.Sprintf("anchor %s.%s no longer exists by name; resolved by role (%s) to %s", pkg, name, roleDesc, fnName(cands[0])))
+		return cands[0]
+	}
+	r.Anchor(err)
+	*okFlag = false
+	return nil
 }
 
 func accessSummary(as []Access) string {
@@ -136,7 +199,7 @@ func (x *reasm) c01r1() {
 		case "load":
 			continue
 		case "store":
-			switch a.Fn {
+			switch x.w.ownerAmong(a.Fn, x.put, x.add) {
 			case x.put:
 				// must be an empty slice
 				ok := false
@@ -192,7 +255,7 @@ func (x *reasm) c01r1() {
 	// Add is called only from Put, with Put's msg parameter
 	sites := x.w.CallSites(x.add)
 	for _, s := range sites {
-		ok := s.Kind == "static" && s.Caller == x.put
+		ok := s.Kind == "static" && x.w.ownedBy(s.Caller, x.put)
 		if ok {
 			args := s.Instr.(ssa.CallInstruction).Common().Args
 			ok = len(args) == 2 && args[1] == ssa.Value(x.put.Params[1])
@@ -442,11 +505,11 @@ func (x *reasm) c01r5() {
 		switch a.Kind {
 		case "load":
 		case "mapupdate":
-			r.Check(a.Fn == x.put, key, a.Instr.Pos(), "insert in Put", "events is inserted into outside Put")
+			r.Check(x.w.ownedBy(a.Fn, x.put), key, a.Instr.Pos(), "insert in Put", "events is inserted into outside Put")
 		case "delete":
-			r.Check(a.Fn == x.remove, key, a.Instr.Pos(), "delete in remove", "events is deleted from outside remove()")
+			r.Check(x.w.ownedBy(a.Fn, x.remove), key, a.Instr.Pos(), "delete in remove", "events is deleted from outside remove()")
 		case "store":
-			r.Check(a.Fn == x.newEventList, key, a.Instr.Pos(), "map created by the constructor", "the events map is replaced outside the constructor")
+			r.Check(x.w.ownedBy(a.Fn, x.newEventList), key, a.Instr.Pos(), "map created by the constructor", "the events map is replaced outside the constructor")
 		case "valarg":
 			n := calleeName(a.Instr)
 			r.Check(n == "len", key+" "+n, a.Instr.Pos(), "", "events map handed to "+n)
@@ -459,19 +522,19 @@ func (x *reasm) c01r5() {
 		switch a.Kind {
 		case "load":
 		case "store":
-			r.Check(a.Fn == x.put || a.Fn == x.remove || a.Fn == x.newEventList, key, a.Instr.Pos(), "", "seqs is stored outside Put, remove and the constructor")
+			r.Check(x.w.ownedBy(a.Fn, x.put) || x.w.ownedBy(a.Fn, x.remove) || x.w.ownedBy(a.Fn, x.newEventList), key, a.Instr.Pos(), "", "seqs is stored outside Put, remove and the constructor")
 		case "reslice":
-			r.Check(a.Fn == x.remove, key, a.Instr.Pos(), "", "seqs is resliced outside remove()")
+			r.Check(x.w.ownedBy(a.Fn, x.remove), key, a.Instr.Pos(), "", "seqs is resliced outside remove()")
 		case "valarg":
 			n := calleeName(a.Instr)
-			okc := n == "len" || n == "append" && a.Fn == x.put || n == fnName(x.sortFn) && a.Fn == x.put
+			okc := n == "len" || n == "append" && x.w.ownedBy(a.Fn, x.put) || n == fnName(x.sortFn) && x.w.ownedBy(a.Fn, x.put)
 			r.Check(okc, key+" "+n, a.Instr.Pos(), "", "seqs handed to "+n+" in "+fnName(a.Fn))
 		default:
 			r.Fail(key, a.Instr.Pos(), "seqs is "+a.Kind+" here (not in the reviewed table)")
 		}
 	}
 	for _, s := range x.w.CallSites(x.remove) {
-		r.Check(s.Kind == "static" && (s.Caller == x.cleanUp || s.Caller == x.clear), "caller of remove: "+fnName(s.Caller), s.Instr.Pos(),
+		r.Check(s.Kind == "static" && (x.w.ownedBy(s.Caller, x.cleanUp) || x.w.ownedBy(s.Caller, x.clear)), "caller of remove: "+fnName(s.Caller), s.Instr.Pos(),
 			"", "remove() is called from "+fnName(s.Caller)+" ("+s.Kind+")")
 	}
 }
@@ -482,7 +545,7 @@ func (x *reasm) c01r6() {
 	r.Rule("C01.R6", "one ReassemblyComplete per evicted event (single forward loop in callback, no other invoke); PushMessage, Maintain and Close each call callback exactly once with both results of the CleanUp/Clear made on that path", 6)
 	inv := x.w.Invokes(x.stream, "ReassemblyComplete")
 	for _, s := range inv {
-		r.Check(s.Caller == x.callback, "ReassemblyComplete invoked in "+fnName(s.Caller), s.Instr.Pos(), "", "ReassemblyComplete is invoked outside callback")
+		r.Check(x.w.ownedBy(s.Caller, x.callback), "ReassemblyComplete invoked in "+fnName(s.Caller), s.Instr.Pos(), "", "ReassemblyComplete is invoked outside callback")
 	}
 	r.Check(len(inv) == 1, "single ReassemblyComplete site", x.callback.Pos(), "", fmt.Sprintf("%d invoke sites of ReassemblyComplete", len(inv)))
 	loops := NaturalLoops(x.callback)
@@ -540,7 +603,7 @@ func (x *reasm) c01r6() {
 	// CleanUp / Clear are called only from these three
 	for _, f := range []*ssa.Function{x.cleanUp, x.clear, x.callback} {
 		for _, s := range x.w.CallSites(f) {
-			ok := s.Kind == "static" && (s.Caller == x.pushMessage || s.Caller == x.maintain || s.Caller == x.closeFn)
+			ok := s.Kind == "static" && (x.w.ownedBy(s.Caller, x.pushMessage) || x.w.ownedBy(s.Caller, x.maintain) || x.w.ownedBy(s.Caller, x.closeFn))
 			r.Check(ok, "caller of "+f.Name()+": "+fnName(s.Caller), s.Instr.Pos(), "", f.Name()+" is called from "+fnName(s.Caller)+", whose handling of the results is not checked")
 		}
 	}
@@ -549,22 +612,41 @@ func (x *reasm) c01r6() {
 // isForwardRangeElem: v is the address/value of base[i] where i walks 0,1,2,... (go/ssa's lowering
 // of `for _, e := range base`: i = φ{-1, i+1}; element index i+1).
 func isForwardRangeElem(v ssa.Value, base ssa.Value) bool {
+	return isForwardElem(v, func(b ssa.Value) bool { return b == base })
+}
+
+// isForwardElem: v is base[i] for a base accepted by isBase and an index i that walks forward
+// from 0 in steps of one (range loop or counted loop).
+func isForwardElem(v ssa.Value, isBase func(ssa.Value) bool) bool {
 	v = stripConv(v)
 	var idx ssa.Value
 	switch e := v.(type) {
 	case *ssa.UnOp:
 		ia, ok := e.X.(*ssa.IndexAddr)
-		if !ok || ia.X != base {
+		if !ok || !isBase(ia.X) {
 			return false
 		}
 		idx = ia.Index
 	case *ssa.Index:
-		if e.X != base {
+		if !isBase(e.X) {
 			return false
 		}
 		idx = e.Index
 	default:
 		return false
+	}
+	// counted form `for i := 0; i < len(s); i++ { s[i] }`: the index is φ{0 | φ+1}
+	if phi, isPhi := idx.(*ssa.Phi); isPhi && len(phi.Edges) == 2 {
+		hasInit, hasInc := false, false
+		for _, e := range phi.Edges {
+			if isConstInt(e, 0) {
+				hasInit = true
+			}
+			if b, isB := e.(*ssa.BinOp); isB && b.Op == token.ADD && b.X == ssa.Value(phi) && isConstInt(b.Y, 1) {
+				hasInc = true
+			}
+		}
+		return hasInit && hasInc
 	}
 	inc, ok := idx.(*ssa.BinOp)
 	if !ok || inc.Op != token.ADD || !isConstInt(inc.Y, 1) {
@@ -596,7 +678,7 @@ func (x *reasm) c01r7() {
 	}
 	r.Check(len(calls) == 1, "PushMessage calls Put once", x.pushMessage.Pos(), "", fmt.Sprintf("%d calls of Put in PushMessage", len(calls)))
 	for _, s := range x.w.CallSites(x.put) {
-		r.Check(s.Caller == x.pushMessage && s.Kind == "static", "caller of Put: "+fnName(s.Caller), s.Instr.Pos(), "", "Put is called from "+fnName(s.Caller))
+		r.Check(x.w.ownedBy(s.Caller, x.pushMessage) && s.Kind == "static", "caller of Put: "+fnName(s.Caller), s.Instr.Pos(), "", "Put is called from "+fnName(s.Caller))
 	}
 	// Push → PushMessage with the parsed message under err == nil
 	for _, c := range callsIn(x.push, x.pushMessage) {
@@ -873,7 +955,7 @@ func propC03(r *Run, w *World) {
 	inv := w.Invokes(x.stream, "EventsLost")
 	for _, s := range inv {
 		cc := s.Instr.(ssa.CallInstruction).Common()
-		ok := s.Caller == x.callback && HoldsAt(s.Instr.Block(), "p2 > 0") && len(cc.Args) == 1 && cc.Args[0] == ssa.Value(x.callback.Params[2])
+		ok := x.w.ownedBy(s.Caller, x.callback) && HoldsAt(s.Instr.Block(), "p2 > 0") && len(cc.Args) == 1 && cc.Args[0] == ssa.Value(x.callback.Params[2])
 		r.Check(ok, "EventsLost in "+fnName(s.Caller), s.Instr.Pos(), "under lost > 0, with the lost parameter", "EventsLost is not invoked under lost > 0 with callback's lost parameter")
 	}
 	r.Check(len(inv) == 1, "single EventsLost site", x.callback.Pos(), "", fmt.Sprintf("%d invoke sites of EventsLost", len(inv)))
@@ -924,9 +1006,9 @@ func propC03(r *Run, w *World) {
 			}
 			t := Term(stripConv(a.Val))
 			switch {
-			case a.Fn == x.cleanUp || a.Fn == x.clear:
+			case x.w.ownedBy(a.Fn, x.cleanUp) || x.w.ownedBy(a.Fn, x.clear):
 				r.Check(t == "p0.seqs[0]", key, a.Instr.Pos(), "stores the head sequence", "lastSeq is set to "+t+", not to the sequence being evicted")
-			case a.Fn == x.newEventList:
+			case x.w.ownedBy(a.Fn, x.newEventList):
 				r.OK(key, a.Instr.Pos(), "constructor")
 			default:
 				// helper: value must be a parameter that every call site fills with the head
@@ -945,7 +1027,7 @@ func propC03(r *Run, w *World) {
 					}
 					for _, s := range sites {
 						ci, isCall := s.Instr.(ssa.CallInstruction)
-						if !isCall || s.Kind != "static" || !(s.Caller == x.cleanUp || s.Caller == x.clear) || Term(stripConv(ci.Common().Args[pi])) != "p0.seqs[0]" {
+						if !isCall || s.Kind != "static" || !(x.w.ownedBy(s.Caller, x.cleanUp) || x.w.ownedBy(s.Caller, x.clear)) || Term(stripConv(ci.Common().Args[pi])) != "p0.seqs[0]" {
 							okH = false
 						}
 					}
@@ -1297,8 +1379,8 @@ func propC10(r *Run, w *World) {
 		case "load":
 			continue
 		case "store":
-			r.Check(isConstTrue(a.Val) && (a.Fn == x.add || a.Fn == x.put), "store complete in "+fnName(a.Fn), a.Instr.Pos(), "stores true", "event.complete is stored "+Term(a.Val)+" in "+fnName(a.Fn))
-			if a.Fn == x.put {
+			r.Check(isConstTrue(a.Val) && (x.w.ownedBy(a.Fn, x.add) || x.w.ownedBy(a.Fn, x.put)), "store complete in "+fnName(a.Fn), a.Instr.Pos(), "stores true", "event.complete is stored "+Term(a.Val)+" in "+fnName(a.Fn))
+			if x.w.ownedBy(a.Fn, x.put) {
 				ok := HoldsAt(a.Instr.Block(), "p1.RecordType == "+x.eoe) && HoldsAt(a.Instr.Block(), "has(p0.events, p1.Sequence)") &&
 					AddrTerm(a.Instr.(*ssa.Store).Addr) == "p0.events[p1.Sequence].complete"
 				r.Check(ok, "Put marks EOE complete", a.Instr.Pos(), "under RecordType == AUDIT_EOE ∧ found, on the found event", "Put marks an event complete outside EOE ∧ found, or marks another event")
@@ -1348,12 +1430,12 @@ func propC10(r *Run, w *World) {
 			if fv == x.fTimeout {
 				want = x.newEventList.Params[1]
 			}
-			r.Check(a.Fn == x.newEventList && a.Kind == "store" && a.Val == ssa.Value(want), fv.Name()+" written in "+fnName(a.Fn), a.Instr.Pos(),
+			r.Check(x.w.ownedBy(a.Fn, x.newEventList) && a.Kind == "store" && a.Val == ssa.Value(want), fv.Name()+" written in "+fnName(a.Fn), a.Instr.Pos(),
 				"constructor stores its parameter", fv.Name()+" is written outside the constructor or not from its parameter")
 		}
 	}
 	for _, s := range w.CallSites(x.newEventList) {
-		ok := s.Caller == x.newReassembler && s.Kind == "static"
+		ok := x.w.ownedBy(s.Caller, x.newReassembler) && s.Kind == "static"
 		if ok {
 			args := s.Instr.(ssa.CallInstruction).Common().Args
 			ok = args[0] == ssa.Value(x.newReassembler.Params[0]) && args[1] == ssa.Value(x.newReassembler.Params[1])
@@ -1481,7 +1563,7 @@ func propC19(r *Run, w *World) {
 	okE := len(rets) == 1 && len(x.isExpired.Blocks) == 1 && Term(rets[0].Results[0]) == "(time.Time).After(time.Now(), p0.expireTime)"
 	r.Check(okE, "IsExpired", x.isExpired.Pos(), "time.Now().After(e.expireTime)", "IsExpired is not time.Now().After(e.expireTime)")
 	for _, a := range Writes(w.FieldAccesses(x.fExpire)) {
-		ok := a.Kind == "store" && a.Fn == x.put && Term(a.Val) == "(time.Time).Add(time.Now(), p0.timeout)"
+		ok := a.Kind == "store" && x.w.ownedBy(a.Fn, x.put) && Term(a.Val) == "(time.Time).Add(time.Now(), p0.timeout)"
 		r.Check(ok, "expireTime written in "+fnName(a.Fn), a.Instr.Pos(), "time.Now().Add(l.timeout) at creation", "expireTime is written elsewhere or with another value: "+a.Kind+" "+func() string {
 			if a.Val != nil {
 				return Term(a.Val)
@@ -1646,11 +1728,11 @@ func propC11(r *Run, w *World) {
 				switch {
 				case held:
 					r.OK(key, a.Instr.Pos(), "lock held")
-				case a.Fn == x.newEventList:
+				case x.w.ownedBy(a.Fn, x.newEventList):
 					r.OK(key, a.Instr.Pos(), "constructor: object not yet shared")
 				case constructOnly[fv] && a.Kind == "load":
 					r.OK(key, a.Instr.Pos(), "immutable after construction (R5)")
-				case a.Fn == x.callback && a.Kind == "load" && fv == x.fMsgs:
+				case x.w.ownedBy(a.Fn, x.callback) && a.Kind == "load" && fv == x.fMsgs:
 					r.OK(key, a.Instr.Pos(), "load of msgs from an event already detached by CleanUp/Clear (C01.R4/R5/R6)")
 				default:
 					r.Fail(key, a.Instr.Pos(), fmt.Sprintf("%s.%s is accessed (%s) without the eventList mutex (held: %s)", T.Obj().Name(), fv.Name(), a.Kind, li.Held(a.Instr)))
@@ -1770,12 +1852,12 @@ func propC11(r *Run, w *World) {
 	r.Rule("C11.R5", "immutable after construction: Reassembler.list/.stream and eventList.maxSize/.timeout are written only by the constructors", 4)
 	for _, fv := range []*types.Var{x.fList, x.fStream} {
 		for _, a := range Writes(w.FieldAccesses(fv)) {
-			r.Check(a.Fn == x.newReassembler && a.Kind == "store", fv.Name()+" written in "+fnName(a.Fn), a.Instr.Pos(), "", "Reassembler."+fv.Name()+" is written after construction")
+			r.Check(x.w.ownedBy(a.Fn, x.newReassembler) && a.Kind == "store", fv.Name()+" written in "+fnName(a.Fn), a.Instr.Pos(), "", "Reassembler."+fv.Name()+" is written after construction")
 		}
 	}
 	for _, fv := range []*types.Var{x.fMaxSize, x.fTimeout} {
 		for _, a := range Writes(w.FieldAccesses(fv)) {
-			r.Check(a.Fn == x.newEventList && a.Kind == "store", fv.Name()+" written in "+fnName(a.Fn), a.Instr.Pos(), "", "eventList."+fv.Name()+" is written after construction")
+			r.Check(x.w.ownedBy(a.Fn, x.newEventList) && a.Kind == "store", fv.Name()+" written in "+fnName(a.Fn), a.Instr.Pos(), "", "eventList."+fv.Name()+" is written after construction")
 		}
 	}
 }
